@@ -738,3 +738,41 @@ func VerifFPSupportedSigAndHashes() []SigAndHash {
 func VerifFPNewClientSessionState(ticket []byte, vers, suite uint16, masterSecret []byte) *ClientSessionState {
 	return &ClientSessionState{sessionTicket: ticket, vers: vers, cipherSuite: suite, masterSecret: masterSecret}
 }
+
+// ---- methods that edit or reuse a cached encoding (clientHello / serverHello)
+
+// SetPSK sets the pre_shared_key fields of a clientHello value that has not been marshalled yet.
+func (v *VerifMsg) SetPSK(labels [][]byte, ages []uint32, binders [][]byte) {
+	m := v.m.(*clientHelloMsg)
+	m.pskIdentities = nil
+	for i := range labels {
+		m.pskIdentities = append(m.pskIdentities, pskIdentity{label: labels[i], obfuscatedTicketAge: ages[i]})
+	}
+	m.pskBinders = binders
+}
+
+// UpdateBinders wraps (*clientHelloMsg).updateBinders.
+func (v *VerifMsg) UpdateBinders(binders [][]byte) { v.m.(*clientHelloMsg).updateBinders(binders) }
+
+// MarshalWithoutBinders wraps (*clientHelloMsg).marshalWithoutBinders.
+func (v *VerifMsg) MarshalWithoutBinders() []byte {
+	return v.m.(*clientHelloMsg).marshalWithoutBinders()
+}
+
+// ClearRaw drops the marshal cache the way the handshake does (`hello.raw = nil`) before re-marshalling an edited hello.
+func (v *VerifMsg) ClearRaw() {
+	switch m := v.m.(type) {
+	case *clientHelloMsg:
+		m.raw = nil
+	case *serverHelloMsg:
+		m.raw = nil
+	}
+}
+
+// SetHRRFields assigns the fields the client changes between ClientHello1 and ClientHello2
+// (processHelloRetryRequest: cookie and key shares) on a clientHello value.
+func (v *VerifMsg) SetHRRFields(cookie []byte, group CurveID, share []byte) {
+	m := v.m.(*clientHelloMsg)
+	m.cookie = cookie
+	m.keyShares = []keyShare{{group: group, data: share}}
+}
